@@ -1864,15 +1864,13 @@ pub fn check_reporting(rec: &RunRecord) -> Vec<Violation> {
             // A lane that has failed is gone (with its reporter); the runtime still accepts link
             // requests for it, which is outside the statement: such links may or may not be counted.
             let failed = rec.truth.first().map(|t| t.iter().any(|(s, e)| *s <= step && matches!(e, TruthEv::LaneFailed { item } if item == lane))).unwrap_or(false);
-            if failed {
-                total_hi += hi;
-                continue;
-            }
             total_lo += lo;
             total_hi += hi;
             if let Some(r) = rec.hist.reports.iter().find(|r| r.step == step && r.lane == *lane) {
                 if r.link_count < lo || r.link_count > hi {
-                    let kind = if any_uncertain_peer { "with_faulty_peer" } else { "all_healthy" };
+                    // (A lane that has failed: the runtime unlinks its remotes and goes on accepting link requests for
+                    // it - the remotes are told `linked`; the statement covers lane failures, so those links count.)
+                    let kind = if failed { "after_lane_failure" } else if any_uncertain_peer { "with_faulty_peer" } else { "all_healthy" };
                     out.push(Violation::new("C20", "C20.link_count", kind, format!(
                         "lane {lane}: reported {} uplinks at step {step} but {lo}..{hi} remotes are linked according to the frames they read", r.link_count)));
                 }
@@ -1880,7 +1878,8 @@ pub fn check_reporting(rec: &RunRecord) -> Vec<Violation> {
         }
         if let Some(r) = rec.hist.reports.iter().find(|r| r.step == step && r.lane == "<aggregate>") {
             if r.link_count < total_lo || r.link_count > total_hi {
-                let kind = if any_uncertain_peer { "with_faulty_peer" } else { "all_healthy" };
+                let any_failed_now = rec.truth.first().map(|t| t.iter().any(|(s, e)| *s <= step && matches!(e, TruthEv::LaneFailed { .. }))).unwrap_or(false);
+                let kind = if any_failed_now { "after_lane_failure" } else if any_uncertain_peer { "with_faulty_peer" } else { "all_healthy" };
                 out.push(Violation::new("C20", "C20.aggregate_link_count", kind, format!(
                     "agent: reported {} uplinks at step {step} but {total_lo}..{total_hi} links are open according to the frames read", r.link_count)));
             }
@@ -1888,8 +1887,8 @@ pub fn check_reporting(rec: &RunRecord) -> Vec<Violation> {
             let sum: u64 = rec.hist.reports.iter().filter(|x| x.step == step && x.lane != "<aggregate>").map(|x| x.link_count).sum();
             let lanes_reported = rec.hist.reports.iter().filter(|x| x.step == step && x.lane != "<aggregate>").count();
             let any_failed = rec.truth.first().map(|t| t.iter().any(|(_, e)| matches!(e, TruthEv::LaneFailed { .. }))).unwrap_or(false);
-            if lanes_reported == KNOWN_LANES.len() && sum != r.link_count && !any_failed {
-                out.push(Violation::new("C20", "C20.aggregate_vs_lanes", "", format!("agent reports {} uplinks at step {step} but its lanes report {sum} in total", r.link_count)));
+            if lanes_reported == KNOWN_LANES.len() && sum != r.link_count {
+                out.push(Violation::new("C20", "C20.aggregate_vs_lanes", if any_failed { "after_lane_failure" } else { "" }, format!("agent reports {} uplinks at step {step} but its lanes report {sum} in total", r.link_count)));
             }
         }
     }
